@@ -79,7 +79,7 @@ ACTIVE = 'all_selected(condition_stack, len(condition_stack._selected))'
 SCOPE_STEP = ('(current_scope is {e}(current_scope) or current_scope is self._label_scope'
               ' or (fresh(current_scope) and current_scope._type == LabelScopeType.LOCAL'
               ' and current_scope._parent is self._label_scope))')
-contract(AF + '.load_line_objects', props=['C17', 'C06', 'C05'], blocks_only=True,
+contract(AF + '.load_line_objects', props=['C17', 'C06', 'C05', 'C08'], blocks_only=True,
          params=dict(LOAD_PARAMS, condition_stack='ConditionStack'),
          locals={'line_objects': 'list[LineObject]', 'line_num': 'int', 'current_scope': 'LabelScope',
                  'current_memzone': 'MemoryZone', 'line': 'str', 'lobj_list': 'list[LineObject]'},
